@@ -132,7 +132,11 @@ def stuck_bit_control(ctx, trace, blocks):
 def run(ctx):
     ctx.cov["rule"] = ("every randomized key type x variant of conc.Targets (AEAD: AES-GCM, AES-CTR-HMAC, AES-GCM-SIV, ChaCha20/"
                        "XChaCha20-Poly1305, X-AES-GCM; streaming AES-GCM-HKDF / AES-CTR-HMAC; HPKE with all 7 KEMs; ECIES over 3 curves x "
-                       "point formats x DEMs; ECDSA, RSA-PSS, ML-DSA, SLH-DSA (fast sets), composite ML-DSA, JWT ES256/PS256; "
+                       "point formats x DEMs; ECDSA, RSA-PSS, ML-DSA, SLH-DSA (fast sets), composite ML-DSA, pre-hash ML-DSA-44/65/87 "
+                       "(signprehash.NewPrehashSigner), JWT ES256/384/512, PS256(/384/512), ML-DSA-65(/87); the entry points over raw keys: "
+                       "aesgcm.NewAEAD, aead/subtle NewAESGCM / NewAESGCMSIV / NewChaCha20Poly1305 / NewXChaCha20Poly1305 / "
+                       "NewEncryptThenAuthenticate / NewAESCTR, aead.NewKMSEnvelopeAEAD2 (both nonces), streamingaead/subtle "
+                       "NewAESGCMHKDF / NewAESCTRHMAC, signature/subtle.NewECDSASigner, hybrid/subtle.NewECIESAEADHKDFHybridEncrypt; "
                        "Manager.Add / AddNewKeyFromParameters / NewHandle key ids; key generation of every key type) is called n times "
                        "under one key (n = 512 quick / 4096 thorough; fewer where only no-repeat is claimed and a call is slow or large), the "
                        "inputs rotating through classes (plaintext / message / stream length 0, 1, 15, 16, 17, 100; AD / context nil, "
@@ -173,8 +177,8 @@ MANIFEST = dict(
           "of the random regions (reusing AEADWire/HPKE/ECIES/OutputPrefix). TLC first checks exhaustively on small scopes that "
           "the incremental monitor equals the declarative property over the history, then validates traces recorded from the "
           "real code: every randomized key type x variant called 512 (quick) / 4096 (thorough) times under one key across 2 OS "
-          "processes x 2 handles x 2 primitive instances, the last instance called from 4 goroutines at once (28.6k / 234k outputs, "
-          "129 / 135 key histories). NoRepeat (IV/nonce/salt||IV/"
+          "processes x 2 handles x 2 primitive instances, the last instance called from 4 goroutines at once (33k / 270k outputs, "
+          "153 / 165 key histories incl. the pre-hash signing path, JWT signers and every constructor over raw keys). NoRepeat (IV/nonce/salt||IV/"
           "header/encapsulation/signature/generated key/(manager, key id)) is an invariant after every call; at the end of a "
           "history every bit of every uniform field must have toggled, every byte position must show >= MinDistinct(n) values, "
           "and the XOR of two random regions of one output must itself look random. The calls rotate through input classes "
